@@ -25,6 +25,11 @@ ID = 'C16'
 ISO = dmt.ISO
 
 
+def _empty_dict(v):
+    """an empty dict (the interpreter builds empty displays as symbolic dicts without slots)"""
+    return (isinstance(v, dict) and len(v) == 0) or (isinstance(v, SDict) and not [sl for sl in v.slots if not (isinstance(sl[0], bool) and not sl[0])])
+
+
 def time_arg(t, name):
     return t.any(name, [('default', None), ('str', t.str(name + '.s', 3)), ('int', t.int(name + '.i')), ('list', [])])
 
@@ -76,7 +81,7 @@ def bdm_factory(ns):
                     tsv, expv = root.split(ts), root.split(exp)
                     dv = root.split(dels)
                     if dv is None:
-                        if not (isinstance(fs['delegations'][1], dict) and len(fs['delegations'][1]) == 0):
+                        if not _empty_dict(fs['delegations'][1]):
                             structural.append('no delegations given => none in the result')
                     else:
                         if fs['delegations'][1] is not dv:
@@ -154,13 +159,15 @@ def defaults_factory(ns):
             d1 = md1['delegations'] if isinstance(md1, dict) else None
             if isinstance(d1, dict):
                 d1['pkg_mgr'] = {'pubkeys': ['ab' * 32], 'threshold': 1}
+            elif isinstance(d1, SDict):
+                d1.slots.append([True, 'pkg_mgr', {'pubkeys': ['ab' * 32], 'threshold': 1}])
             b = run_call(it, MC.build_delegating_metadata, ['key_mgr'])
             m = path_model(eng)
             if m is None:
                 return None
             mk = lambda mm: dict(scenario='defaults')
             obs = []
-            ok = is_ret(b) and isinstance(b[1], dict) and isinstance(b[1].get('delegations'), dict) and len(b[1]['delegations']) == 0
+            ok = is_ret(b) and isinstance(b[1], dict) and _empty_dict(b[1].get('delegations'))
             obs.append(dict(name='a construction without delegations carries none, whatever was done to an earlier result', status='unsat' if ok else 'sat', cex=mk(m)))
             w = mk(m)
             w['predicted'] = {'kind': 'ret'}
